@@ -1,4 +1,6 @@
 """C13 - corrupted responses are rejected and never change state."""
+import asyncio
+
 from . import appfault
 from .common import REAL_BASE, STUB_BASE, Result, Space, SimDeadlock, SimStepLimit, codec
 from .session import Session, snapshot, compare_view, CLIENT_ATTRS
@@ -175,19 +177,42 @@ def run(plan):
             net = [{} for _ in range(4)]
             net[KINDS[kind]] = {"app": spec}
             op = {"op": "refresh", "net": net}
+        if plan.get("idle_before"):
+            # the last valid report is some time old when the corrupted answers arrive
+            await asyncio.sleep(plan["idle_before"])
+            snap0 = snapshot(ac)
+            w.fire("corrupted_answer_long_after_the_last_valid_one")
         dev.bad_frames = []
+        pre_snap = []
         o = await s.do(op)
+        for _ in range(plan.get("repeat", 0)):
+            # the same corrupted answer in several consecutive polls
+            if o.kind != "ok":
+                break
+            await asyncio.sleep(1.0)
+            o = await s.do({k: ([dict(x) for x in v] if k == "net" else v) for k, v in op.items()})
         dev.raw_state = None
         if o.kind != "ok":
             w.probe("operation_raised_(C14_domain)")
             return
         bad_frames = dev.bad_frames
+        if plan.get("repeat") and kind in ("energy", "humidity", "props") and spec["place"] == "alone":
+            if all(not codec.response_valid_by_stated_rule(f) for f in bad_frames):
+                # afterwards a poll that is answered properly: the data the rejected frames withheld is fetched
+                pre_snap.append(snapshot(ac))
+                o2 = await s.do({"op": "refresh"})
+                snap2 = snapshot(ac)
+                if o2.kind == "ok" and not [a for a in GROUPS[kind] if snap0[a] != snap2[a]]:
+                    res.fail(f"valid {kind} data is no longer fetched after rejected answers",
+                             f"{plan['repeat'] + 1} polls with a rejected {kind} answer, then a clean poll: nothing changed")
+                    return
+                w.fire("clean_poll_after_repeated_rejected_answers")
         if not bad_frames:
             raise RuntimeError("no corrupted frame was produced")
         if kind not in ("all",) and len(bad_frames[0]) != FRAME_LEN[kind]:
             w.probe("frame_length_differs_from_enumeration_table")     # positions are taken modulo the real length
         invalid = [not codec.response_valid_by_stated_rule(f) for f in bad_frames]
-        snap1 = snapshot(ac)
+        snap1 = pre_snap[0] if pre_snap else snapshot(ac)
 
         def group_changed(g):
             return [(a, snap0[a], snap1[a]) for a in GROUPS[g] if snap0[a] != snap1[a]]
@@ -224,7 +249,9 @@ def run(plan):
                 res.fail("refresh that received only invalid frames reports online/supported",
                          f"online={ac.online} supported={ac.supported}")
             return
-        if not invalid[0]:
+        if not invalid[0] or (plan.get("repeat") and not all(invalid)):
+            # (with repeated polls every one of the corrupted frames has to be invalid by the stated rule: the
+            #  message id differs from poll to poll, and with it the check bytes)
             stats["exempt"] += 1
             return
         stats["judged"] += 1
@@ -253,7 +280,7 @@ def run(plan):
     res.add_fired(dev.fired)
     res.exempt = stats["exempt"]
     res.key = (plan["config"]["version"], kind, tuple(corrupt), bool(plan.get("fresh_first")), plan.get("ftype"),
-               bool(plan.get("embed")), plan.get("place"))
+               bool(plan.get("embed")), plan.get("place"), plan.get("repeat"), plan.get("idle_before"))
     res.nontrivial = stats["judged"] > 0
     return res
 
@@ -281,11 +308,19 @@ def space(tier):
                         "caps_with_extra": rng.random() < 0.3,
                         "fresh_first": kind in ("caps", "state") and rng.random() < 0.3,
                         "ftype": rng.choice([None, None, None, 0x02, 0x04, 0x05, 0x06, 0x0A]),
+                        "repeat": rng.choice([0, 0, 0, 2, 3, 4]) if kind in ("energy", "humidity", "props") else 0,
+                        "idle_before": rng.choice([0, 0, 0, 100.0, 1000.0, 7200.0]),
                         # several frames in one exchange: the corrupted one twice / twice and then the valid one
                         "place": rng.choice(["alone", "alone", "twice", "bad_bad_good", "many_then_good"]) if kind != "caps" else
                         rng.choice(["alone", "twice"]), "n": rng.choice([7, 8, 9, 16, 33])}
+            def fn2(j, rng, fn=fn):
+                p = fn(j, rng)
+                if p.get("repeat"):
+                    # the repeated-poll history is kept free of the other variations
+                    p.update({"place": "alone", "ftype": None, "caps_with_extra": False, "fresh_first": False})
+                return p
             reps = 2 if tier == "thorough" else 1
-            sp.add(f"{label}_{kind}", len(positions) * nvals * reps, fn, exhaustive=(nvals == 255))
+            sp.add(f"{label}_{kind}", len(positions) * nvals * reps, fn2, exhaustive=(nvals == 255))
 
     def embedded(j, rng):
         # every value of the length byte (and of the other header bytes) of a report that embeds a frame image
